@@ -490,8 +490,9 @@ def run_one_path(ex, c, fnode, is_method, res):
         g = ex.to_bool(eval_spec_expr(ex, e_, cenv))
         ex.oblige("post", f"ensures[{i}]", g, line_end, note=e_)
     want_fresh = c.get("fresh")
-    if want_fresh in ("shallow", "deep") and isinstance(result, Z):
-        ok = result.fresh == "deep" or (want_fresh == "shallow" and result.fresh == "shallow")
+    if want_fresh in ("node", "shallow", "deep") and isinstance(result, Z):
+        order = {"no": 0, "node": 1, "shallow": 2, "deep": 3}
+        ok = order[result.fresh] >= order[want_fresh]
         ex.oblige_trivial("frame", "result-is-fresh", ok, line_end,
                           note=f"result provenance: {result.origin}")
 
